@@ -159,7 +159,7 @@ theorem stage1Fn_sum (sc : Scope) (f : Fn) (g : Rec → Nat) (K : Nat)
     (hdc : ∀ k, g (defaultClone sc f k) = K)
     (ho : g (original sc f) = K)
     (hu : g (usesTClone sc f) = K)
-    (hc : ∀ c ∈ templateClones (f.base sc) sc.w0 0 f.tinst, g c = K) :
+    (hc : ∀ c ∈ templateClones (f.base sc) (f.w0 sc) 0 f.tinst, g c = K) :
     ((stage1Fn sc f).map g).sum
       = (if f.tinst.isEmpty then f.ndefaults + 1 else f.tinst.length * (f.ndefaults + 1)) * K := by
   unfold stage1Fn
@@ -185,7 +185,7 @@ theorem stage1Fn_sum (sc : Scope) (f : Fn) (g : Rec → Nat) (K : Nat)
         (by intro c hcm; rw [variants_sum g hs hv hl, hc c hcm]), templateClones_length]
       simp [Nat.mul_assoc]
 
-theorem stage1Fn_sum_cw (sc : Scope) (f : Fn) (hc : sc.w0.c = true) (hf : sc.w0.f = true) :
+theorem stage1Fn_sum_cw (sc : Scope) (f : Fn) (hc : (f.w0 sc).c = true) (hf : (f.w0 sc).f = true) :
     ((stage1Fn sc f).map cw).sum = cCount f := by
   unfold cCount
   apply stage1Fn_sum sc f cw _ (by intro r s; rfl) cw_variantClone cw_variantLast
@@ -197,7 +197,7 @@ theorem stage1Fn_sum_cw (sc : Scope) (f : Fn) (hc : sc.w0.c = true) (hf : sc.w0.
     obtain ⟨h1, h2, _⟩ := templateClones_fields _ _ _ _ c hcm
     simp [cw, h1, h2, hc, hf, Fn.base]
 
-theorem stage1Fn_sum_fw (sc : Scope) (f : Fn) (hf : sc.w0.f = true) :
+theorem stage1Fn_sum_fw (sc : Scope) (f : Fn) (hf : (f.w0 sc).f = true) :
     ((stage1Fn sc f).map fw).sum = fCount f := by
   have hg : (genericSuffixes 0 f.generics).isEmpty = f.generics.isEmpty := by
     cases h : f.generics with
@@ -217,7 +217,8 @@ theorem stage1Fn_sum_fw (sc : Scope) (f : Fn) (hf : sc.w0.f = true) :
     the documented number of C entry points: for every declaration one per admissible number of
     trailing defaulted arguments (`d + 1`), `t` for the instantiations of a function template,
     and one more each where a bufferify variant exists. -/
-theorem count_c_entry_points (sc : Scope) (fs : List Fn) (hc : sc.w0.c = true) (hf : sc.w0.f = true) :
+theorem count_c_entry_points (sc : Scope) (fs : List Fn)
+    (hc : ∀ f ∈ fs, (f.w0 sc).c = true) (hf : ∀ f ∈ fs, (f.w0 sc).f = true) :
     ((expand sc fs).filter (fun r => r.wrap.c)).length = (fs.map cCount).sum := by
   rw [← List.countP_eq_length_filter]
   unfold expand core
@@ -226,12 +227,14 @@ theorem count_c_entry_points (sc : Scope) (fs : List Fn) (hc : sc.w0.c = true) (
   induction fs with
   | nil => rfl
   | cons f fs ih =>
-    rw [List.flatMap_cons, List.map_append, List.sum_append, ih, stage1Fn_sum_cw sc f hc hf]
+    rw [List.flatMap_cons, List.map_append, List.sum_append,
+      ih (fun g hg => hc g (by simp [hg])) (fun g hg => hf g (by simp [hg])),
+      stage1Fn_sum_cw sc f (hc f (by simp)) (hf f (by simp))]
     simp
 
 /-- **(a) count, Fortran.**  Exactly one Fortran specific per C-level signature, or one per
     `fortran_generic` entry (`g`) where such a list is given. -/
-theorem count_fortran_specifics (sc : Scope) (fs : List Fn) (hf : sc.w0.f = true) :
+theorem count_fortran_specifics (sc : Scope) (fs : List Fn) (hf : ∀ f ∈ fs, (f.w0 sc).f = true) :
     ((expand sc fs).filter (fun r => r.wrap.f)).length = (fs.map fCount).sum := by
   rw [← List.countP_eq_length_filter]
   unfold expand core
@@ -240,7 +243,8 @@ theorem count_fortran_specifics (sc : Scope) (fs : List Fn) (hf : sc.w0.f = true
   induction fs with
   | nil => rfl
   | cons f fs ih =>
-    rw [List.flatMap_cons, List.map_append, List.sum_append, ih, stage1Fn_sum_fw sc f hf]
+    rw [List.flatMap_cons, List.map_append, List.sum_append,
+      ih (fun g hg => hf g (by simp [hg])), stage1Fn_sum_fw sc f (hf f (by simp))]
     simp
 
 /-! ## (b) distinctness -/
